@@ -26,6 +26,7 @@ for log in sys.argv[1:]:
         elif entries[cur]["checks"] and (line.startswith("VIOLATION") or line.startswith("  engine") or line.startswith("HELD") or line.startswith("INCONCLUSIVE")):
             entries[cur]["checks"][-1]["lines"].append(line.strip()[:300])
 NOTES = {
+ 'C05-r5-2': ('not claimed - trigger outside the property as the checks read it', 'the break shows only when predecessors() is called on a DijkstraPred that has already been advanced; on the UNCHANGED tree predecessors() after two or more steps is itself incomplete (the vertices already yielded keep None), so C05 is read as a statement about fresh searches; completeness after exactly one step holds on the unchanged tree only by accident of the implementation, and demanding it would raise an alarm on a harmless refactoring'),
  'own-m07_tarjan_lowlink': ('equivalent mutant - no violation to detect', 'low_link[v] <= index[v] for an on-stack v, so the partition is still right'),
  'own-m08_johnson_noclear': ('equivalent mutant - no violation to detect', 'for a single circuits() call the per-start reset is redundant (the independent C10 agents reached the same conclusion; a second call on the same object is a different break, C10-r2-1, which is caught)'),
  'own-m10_istournament_shortcut': ('equivalent mutant - no violation to detect', 'size == n(n-1)/2 and every pair joined at least once implies exactly once'),
